@@ -32,6 +32,36 @@ T = {
  "C41-2": ("C41", "read-only open of a journal with a torn tail", "first-run", "C03 truncate-needs-tryTruncate (C41 at first only via C03; the guard list of C41 was then extended to processJournalRecords)", "reported by C03's rule on first run; C41's own rule set was extended afterwards"),
  "C47-1": ("C47", "case-sensitive filesystem; create one; drop one; create One; dolt_undrop('one')", "strengthened", "C47 name-compare-case-insensitive", "missed by the first C47 rule set (comparison body was declared value-level)"),
  "C47-2": ("C47", "a failure of registerNewDatabase (init hook / load error) during dolt_undrop", "first-run", "C47 drop-path-never-deletes", ""),
+ "C04-1": ("C04", "an index that lost one whole batch from the middle (>=3 batches), every remaining record intact", "first-run", "C04 index-batch-validated (contiguity comparison, cursor advance)", ""),
+ "C04-2": ("C04", "corruption in a late index batch after >=6 valid ones", "first-run", "C04 index-reset-complete", ""),
+ "C12-1": ("C12", "last edit of a flush moves a chunk boundary strictly inside an old chunk", "missed", "", "value-level: chunker resynchronisation arithmetic (declared not decided by C12)"),
+ "C12-2": ("C12", "convergent edit on both sides + right side's next difference is its last chunk + left added keys past the right's end", "missed", "", "value-level: patch-merge arithmetic (C14/C30 territory, not applicable)"),
+ "C15-1": ("C15", "an indexed YEAR column holding 0000", "strengthened", "C15 cmp-read-agrees-with-get", "the rule existed but its reader table descended into codec internals (readYear -> readUint8) and so accepted the raw-byte reader; table construction fixed"),
+ "C15-2": ("C15", "shared builder: write >k fields, BuildPrefix(k), then build a row leaving one of those fields NULL", "missed", "", "state-reset completeness of TupleBuilder is not among the C15 rules; no production caller triggers it"),
+ "C23-1": ("C23", "a dirty transaction with no net change (savepoint+rollback, insert+delete) committing after a concurrent commit", "first-run", "C23 merge-skipped-only-if-equal", ""),
+ "C23-2": ("C23", "adjacent leaf-chunk boundary keys edited by two transactions on the fast merge path", "missed", "", "value-level: `cmp > 0` vs `>= 0` in the prolly patch merge (C14/C30, not applicable)"),
+ "C24-1": ("C24", "foreign_key_checks=0, a commit-time merge recording both a non-FK and an FK violation with the FK one sorting last", "first-run", "C24 violations-need-force", ""),
+ "C24-2": ("C24", "merge records a violation on an unstaged table; dolt_add of a subset; dolt_commit without --force", "strengthened", "C24 commit-gate (unfiltered verdict over the working root)", "the Dolt-commit gate (env/actions) was outside the first C24 rule set, which covered the transaction-commit gate"),
+ "C28-1": ("C28", "goroutine interleaving while two roots holding the same table are loaded at startup", "first-run", "C28 sequence-map-owners (init goroutines may only LoadOrStore/CompareAndSwap)", ""),
+ "C28-2": ("C28", "ALTER TABLE ... AUTO_INCREMENT = <current max id>", "missed", "", "value-level boundary (`!new.GreaterThan(cur)` vs `cur.GreaterThan(new)`)"),
+ "C35-1": ("C35", "two pushers racing to create the same new branch", "first-run", "C35 ff-ancestor-check / C20 compare-before-edit", ""),
+ "C35-2": ("C35", "remote moves between the CanFastForward pre-check and the ref update", "strengthened", "C35 push-ack-after-ref-move", "ack-after-effect shape was missing from the first C35 rule set"),
+ "C36-1": ("C36", "a BLOB/quoted value containing a non-UTF-8 byte sequence", "first-run", "C36 escape-via-encodesql", ""),
+ "C36-2": ("C36", "a CSV field starting with non-ASCII whitespace", "missed", "", "outside the claimed clause (C36 claims only the SQL literal quoting clause; CSV is listed as not decided)"),
+ "C37-1": ("C37", "multi-column PRIMARY KEY declared in a different order than the columns, plus a secondary index", "strengthened", "C37 pk-ordinals-before-indexes", "ordering of deserialization steps was not in the first C37 rule set"),
+ "C37-2": ("C37", "table in HEAD dropped and re-created before the next commit with a changed column set", "missed", "", "semantic change of which columns seed the tag generator; callers above GenerateTagsForNewColumns were declared not checked"),
+ "C39-1": ("C39", "a request path that normalises to the sealed one (./, x/../, //, %2e%2e)", "strengthened", "C39 unseal-path-compared-raw", ""),
+ "C39-2": ("C39", "request path with a doubled or encoded leading separator", "missed", "", "which prefix-stripping function is used (TrimLeft vs TrimPrefix) is value-level; a rule naming the API would fire on behaviour-preserving rewrites"),
+ "C40-1": ("C40", "a large-format JSON container (>64KB) with a literal as direct member", "missed", "", "byte layout of the encoding: value-level (C40 claims only registry/handler agreement)"),
+ "C40-2": ("C40", "a SET column with 33-56 members followed by another column", "missed", "", "serialize/metadata length disagreement is an expression-level agreement; comparing formulas would fire on equivalent refactors of one side"),
+ "C45-1": ("C45", "a commit whose Execute lands between reading nextHead and opening the attempt", "strengthened", "C45 attempt-opened-under-lock", ""),
+ "C45-2": ("C45", "branch created / fast-forwarded / reset to an already replicated commit", "strengthened", "C45 push-hook-ack-after-ref-move", ""),
+ "C20-1": ("C20", "a working-set write wins the root CAS between a clean-branch delete's read and its CAS", "first-run", "C20 ws-clean-before-edit", ""),
+ "C20-2": ("C20", "several sessions that all saw 'no working set yet' create it concurrently", "first-run", "C20 compare-before-edit", ""),
+ "C21-1": ("C21", "first commit on a branch without a working set, with the second of two root updates failing", "first-run", "C21 layer-single-write", ""),
+ "C21-2": ("C21", "stale dataset handle / head-only mover winning the root CAS during CommitWithWorkingSet", "first-run", "C20 mismatch-is-error (the C21 rule set itself does not report it)", "caught by the sibling property's rule over the same closure"),
+ "C42-1": ("C42", "true interleaving of two CheckAndPutManifest clients", "first-run", "C42 manifest-token-flow (floor: exactly one CheckAndPutManifest call and one manifest read)", "reported through the rule's site floor, i.e. generically"),
+ "C42-2": ("C42", "a lock holder stalled for >10s between its version check and its write", "strengthened", "C42 lock-handed-out-only-if-held", ""),
 }
 
 def main():
